@@ -445,6 +445,7 @@ def run(ctx):
     chk.floor("R07.5", "public entries that reach a builder", reach_ok, 6)
     consumed_text(chk, fb)
     thin_wrappers(chk, fb, "R07.7")
+    literal_errors(chk, fb)
 
 
 def _byte_length(fb, v, depth=0):
@@ -660,3 +661,40 @@ def _closures(v, out=None, depth=0):
         for a in v.elems:
             _closures(a, out, depth + 1)
     return out
+
+
+def literal_errors(chk, fb, RID="R07.8"):
+    """R07.8 (error discipline): the value-typed literal parser hands every parse error on.  `FromStr for Val` is what rejects a
+    malformed literal the (deliberately loose) literal pattern let through; an error that is dropped (`.ok()`, `filter_map`,
+    `unwrap_or`, `flatten`) turns `[#1, 2]` into a shorter array instead of an error."""
+    if "value" not in fb.features:
+        return
+    chk.rule(RID, "FromStr for Val: no parse result is discarded (ok / unwrap_or* / is_ok / filter_map / flatten / flat_map): a malformed element is an error")
+    roots = [p for p, b in fb.bodies.items() if b.get("name") == "from_str" and b.get("impl_trait_path") == "std::str::FromStr" and "value::Val<" in (b.get("impl_self_ty") or "")]
+    if len(roots) != 1:
+        chk.violation(RID, "anchor", "impl FromStr for Val not found")
+        return
+    from analysis.callgraph import CallGraph
+    cg = CallGraph(fb)
+    scope = {p for p in cg.reachable(roots) if p.startswith("value::") or p.startswith("<value::")} | set(roots)
+    scope |= {c for r in list(scope) for c in fb.closures_of(r)}
+    DROP = {"std::result::Result::<T, E>::ok", "std::result::Result::<T, E>::unwrap_or", "std::result::Result::<T, E>::unwrap_or_else", "std::result::Result::<T, E>::unwrap_or_default",
+            "std::result::Result::<T, E>::is_ok", "std::result::Result::<T, E>::is_err", "std::iter::Iterator::filter_map", "std::iter::Iterator::flatten", "std::iter::Iterator::flat_map",
+            "std::result::Result::<T, E>::into_iter", "std::result::Result::<T, E>::iter"}
+    nparse = 0
+    bad = False
+    for p in sorted(scope):
+        b = fb.bodies.get(p)
+        if b is None:
+            continue
+        for bi, t in mir.calls(b):
+            cp = mir.callee_path(t) or ""
+            if cp in ("core::str::<impl str>::parse", "std::str::FromStr::from_str"):
+                nparse += 1
+            if cp in DROP:
+                bad = True
+                chk.violation(RID, "dropped:%s" % re.sub(r"(::\{closure#\d+\})+$", "", p), "%s discards a parse result with %s: a malformed part of a literal is skipped instead of being reported" % (
+                    re.sub(r"(::\{closure#\d+\})+$", "", p), cp.rsplit("::", 1)[-1]), loc(t["span"]))
+    chk.floor(RID, "parse calls of the value literal parser", nparse, 3)
+    if not bad:
+        chk.ok(RID, "no parse result is discarded", "%d functions, %d parse calls" % (len(scope), nparse), loc(fb.bodies[roots[0]]["span"]))
